@@ -117,10 +117,15 @@ HeaderCtrlBad(p) ==
   /\ Terminate(m)
   /\ open' = [open EXCEPT ![m] = None] /\ lastm' = m /\ UNCHANGED mode /\ nfault' = nfault + 1
   /\ npk' = npk + 1 /\ lastAct' = [a |-> "HeaderCtrlBad", pg |-> pg]
-\* a row with a parity error, or any non-header packet with an uncorrectable address: changes nothing
+\* a non-header packet with an uncorrectable address changes nothing.  A row with a parity error never reaches the
+\* stored page; the row buffer of the page in transmission holds one reception per row (packet.c keeps the last one and
+\* gates it at termination, lop_parity_check), so a good copy of the SAME row received earlier in the SAME transmission
+\* is forgotten and the row falls back to the previously stored version or stays blank - both outcomes the statement
+\* allows ("the row keeps its earlier content or stays blank").
 RowBad(kind, m, r, c) ==
   /\ kind \in FaultKinds /\ nfault < MaxFaults /\ (mode = "serial" => lastm = m)
-  /\ term' = <<>> /\ UNCHANGED <<mode, open, lastm, cache, latest>> /\ nfault' = nfault + 1
+  /\ open' = IF kind = "rpar" /\ open[m] # None THEN [open EXCEPT ![m].rows[r] = 0] ELSE open
+  /\ term' = <<>> /\ UNCHANGED <<mode, lastm, cache, latest>> /\ nfault' = nfault + 1
   /\ npk' = npk + 1 /\ lastAct' = [a |-> "RowBad", kind |-> kind, m |-> m, r |-> r, c |-> c]
 
 Next == \/ \E p \in Pages, s \in 0..2, e \in BOOLEAN, n \in {0, 1} : Header(p, s, e, n)
@@ -138,6 +143,10 @@ OneVersion == \A c, d \in cache : (c.pg = d.pg /\ c.sub = d.sub) => c = d
 LatestStored == \A p \in DOMAIN latest : latest[p] # 0 \/ Stored(p, 0) # {} \/ \A c \in cache : c.pg # p
 \* C03: only transmitted page / subpage numbers are ever stored
 OnlyTransmitted == \A c \in cache : \E p \in Pages : c.pg = PgnoOf(p) /\ c.sub \in SubsOf(p)
+\* C03: a damaged packet never adds or changes content: every row of a terminated version is blank, the stored version's
+\* row, or a content received intact in this transmission (checked with the ghost of intact receptions = open.rows before)
+BadRowContained == [][lastAct'.a = "RowBad" => \A m \in Mags : open[m] # None =>
+                        \A r \in Rows : open'[m].rows[r] \in {0, open[m].rows[r]}]_vars
 \* rows not retransmitted keep their content unless the erase flag was set (action property)
 KeepsRows == [][\A i \in 1..Len(term') : LET v == term'[i]  o == open[MagOf(v.pg)] IN
                   \A r \in Rows : (o.rows[r] = 0 /\ ~o.erase /\ Stored(v.pg, v.sub) # {}) =>
